@@ -145,12 +145,16 @@ fn adc_raw(board: alpha16::BoardId, channel_byte: u8, raw: &[i16]) -> Vec<u8> {
     b
 }
 fn pwb_payload(board: padwing::BoardId, after: u8, n: usize, channels: &[(u16, Vec<i16>)]) -> Vec<u8> {
+    pwb_payload_thr(board, after, n, channels, None)
+}
+/// `thr`: the over-threshold mask (default: the sent mask); sent and over-threshold channels are independent in the format
+fn pwb_payload_thr(board: padwing::BoardId, after: u8, n: usize, channels: &[(u16, Vec<i16>)], thr: Option<u128>) -> Vec<u8> {
     let mut p = vec![2, b'A' + after, 0, 0];
     p.extend(board.mac_address()); p.extend([0; 12]);
     p.extend((n as u16).to_le_bytes());
     let mut bm = 0u128;
     for (i, _) in channels { bm |= 1 << (i - 1); }
-    p.extend(&bm.to_le_bytes()[..10]); p.extend(&bm.to_le_bytes()[..10]); p.extend([0; 8]);
+    p.extend(&bm.to_le_bytes()[..10]); p.extend(&thr.unwrap_or(bm).to_le_bytes()[..10]); p.extend([0; 8]);
     for (i, w) in channels {
         p.extend(i.to_le_bytes()); p.extend((n as u16).to_le_bytes());
         for k in 0..n { p.extend(w.get(k).copied().unwrap_or(1725).to_le_bytes()); }
@@ -229,6 +233,14 @@ pub fn c09_event(tier: &str) -> Value {
                 if with_wires && tier != "thorough" && n > 2 && n != 511 { break; }
             }
         }
+    }
+    // sent and over-threshold masks differ in both directions (forced channels / suppression quirks)
+    for thr in [0u128, 1 << 3, (1 << 3) | (1 << 4) | (1 << 40), (1u128 << 79) - 1] {
+        let payload = pwb_payload_thr(pb, 0, 150, &[(4, vec![1800; 150]), (5, vec![1725; 150])], Some(thr));
+        let mut banks: Banks = vec![("ATAT".into(), trg(9))];
+        for c in pwb_chunks(pb, 0, &payload, 2) { banks.push(("PC12".into(), c)); }
+        cases += 1;
+        match run_event(banks.clone(), true) { Err(p) => return fail(format!("panic: {p} (over-threshold mask {thr:#x} differs from the sent mask)"), cases, &banks), Ok(_) => {} }
     }
     json!({"status": "bounded-ok", "target": target, "bound": bound, "cases": cases, "distinct": cases})
 }
